@@ -812,7 +812,9 @@ fn do_extract(repo: &str, ex: &Extract, probes: bool, probe_ctr: &mut usize) -> 
         let params = ex.kv.get("params").cloned().unwrap_or_default();
         let rett = ex.kv.get("rettype").map(|t| format!(" -> {}", t)).unwrap_or_default();
         let generics = ex.kv.get("generics").cloned().unwrap_or_default();
-        text = format!("fn {}{}({}){} {{\n{}\n}}", name, generics, params, rett, frag_text);
+        // `tail=` is ghost scaffolding that exposes locals of the fragment as the wrapper's result
+        let tail = ex.kv.get("tail").cloned().unwrap_or_default();
+        text = format!("fn {}{}({}){} {{\n{}\n{}\n}}", name, generics, params, rett, frag_text, tail);
         rewrites.insert("X6", 1);
         kindname = "fragment";
     } else if let Some(n) = ex.kv.get("as") {
